@@ -1191,7 +1191,12 @@ def call_builtin(ex, f, args, kwargs):
         if n == 'id':
             return id(args[0])
         if n == 'round':
-            raise OutOfSubset('round()')
+            v = args[0]
+            if isinstance(v, (int, float)) and not isinstance(v, bool) and (len(args) == 1 or args[1] is None):
+                return round(v)
+            if isinstance(v, (int, float)) and len(args) == 2 and isinstance(args[1], int):
+                return round(v, args[1])
+            raise OutOfSubset('round() of a symbolic value')
         if n == 'map':
             return [ex.call(args[0], [x]) for x in iterate(ex, args[1])]
         raise OutOfSubset('builtin %s' % n)
